@@ -25,7 +25,11 @@ GRAMMARS = {
     # overlapping start terminals: a proper suffix of the first token of a failed attempt begins a valid match
     'overlap': 'start: AB "c" | B "d" | "a" "a"\nAB: "ab"\nB: "b"\n%ignore " "\n',
     'nullable': 'start: item*\nitem: "<" W? ">"\nW: /[a-z]+/\n%ignore /[ \\n]/\n',
+    # global regexp flags widen the start terminals: the search for match starts must see the same terminals as the lexer
+    'abi': 'start: "a" "b"+ "c"? | "a"\n%ignore " "\n',
 }
+import re as _re
+GRAMMAR_OPTS = {'abi': {'g_regex_flags': _re.I}}
 
 if P:
     from lark import Lark, Tree, Token
@@ -38,7 +42,7 @@ if P:
     L = P['L']
     PIN = P.get('pin')
     WINDOWS = P.get('windows', True)
-    LARK = Lark(GRAMMARS[GNAME], parser='lalr', lexer=LEXER, use_bytes=BYTES, propagate_positions=True)
+    LARK = Lark(GRAMMARS[GNAME], parser='lalr', lexer=LEXER, use_bytes=BYTES, propagate_positions=True, **GRAMMAR_OPTS.get(GNAME, {}))
     BLEX = hs.basic_lexer_of(LARK)
     PART = alpha.partition(alpha.terminal_patterns(LARK), universe=range(256) if BYTES else range(0x250), is_bytes=BYTES)
     REPS = PART.reps(hs.SEED)
@@ -163,7 +167,7 @@ def check(cs: List[int], a: int, b: int, whole: bool) -> bool:
 
 def plan(tier, seed):
     quick = tier == 'quick'
-    Ks = {'ab': 5, 'kwassign': 10, 'nested': 6, 'nullable': 6, 'overlap': 6}
+    Ks = {'ab': 5, 'kwassign': 10, 'nested': 6, 'nullable': 6, 'overlap': 6, 'abi': 5}
     slices = []
     for g, k in Ks.items():
         for lexer in ('basic', 'contextual'):
